@@ -156,6 +156,26 @@ STR_VALUES = {
 }
 
 
+NO_DERIVED = {'axes', 'baseline_points', 'regions', 'method', 'min_value', 'max_value', 'step', 'x_data', 'z_data'}
+
+
+def derived_alts(pn, default):
+    """alternatives for a numeric parameter that has no entry in ALT_VALUES, derived from its default: the neutral value 1 (multipliers,
+    scales), half and twice the default for floats; the neighbouring integers for ints. A parameter is never left at its default only
+    because nobody listed values for it."""
+    if pn in NO_DERIVED or isinstance(default, bool) or not isinstance(default, (int, float)):
+        return []
+    if isinstance(default, int):
+        vals = [default + 1, max(1, default - 1)]
+    else:
+        vals = [1.0, default / 2, default * 2]
+    out = []
+    for v in vals:
+        if v != default and v not in out:
+            out.append(v)
+    return out
+
+
 def variants(name, e, two_d, rng, count=3, base=None):
     """`count` keyword-argument dictionaries for `name`, each the base call with ONE or TWO parameters moved to a non-default
     value (bools flipped; None / 0 defaults switched on; named numeric parameters moved within their domain)"""
@@ -170,7 +190,7 @@ def variants(name, e, two_d, rng, count=3, base=None):
         if isinstance(default, bool):
             cands.append((pn, not default))
             continue
-        vals = list(ALT_VALUES.get(pn, []))
+        vals = list(ALT_VALUES.get(pn, [])) or derived_alts(pn, default)
         if pn in STR_VALUES and name in STR_VALUES[pn]:
             vals = list(STR_VALUES[pn][name])
         if pn == 'lam' and default is None:
@@ -206,7 +226,7 @@ def single_variants(name, e, two_d, base=None):
         elif isinstance(default, bool):
             vals = [not default]
         else:
-            vals = list(ALT_VALUES.get(pn, []))
+            vals = list(ALT_VALUES.get(pn, [])) or derived_alts(pn, default)
             if pn in STR_VALUES and name in STR_VALUES[pn]:
                 vals = list(STR_VALUES[pn][name])
             if pn == 'lam' and default is None:
